@@ -16,6 +16,9 @@ Spec/Front15.vos Spec/Front15.vok Spec/Front15.required_vos: Spec/Front15.v Gen/
 Model/Base.vo Model/Base.glob Model/Base.v.beautified Model/Base.required_vo: Model/Base.v 
 Model/Base.vio: Model/Base.v 
 Model/Base.vos Model/Base.vok Model/Base.required_vos: Model/Base.v 
+Model/Route.vo Model/Route.glob Model/Route.v.beautified Model/Route.required_vo: Model/Route.v Model/Base.vo
+Model/Route.vio: Model/Route.v Model/Base.vio
+Model/Route.vos Model/Route.vok Model/Route.required_vos: Model/Route.v Model/Base.vos
 Model/Store.vo Model/Store.glob Model/Store.v.beautified Model/Store.required_vo: Model/Store.v Model/Base.vo
 Model/Store.vio: Model/Store.v Model/Base.vio
 Model/Store.vos Model/Store.vok Model/Store.required_vos: Model/Store.v Model/Base.vos
@@ -148,6 +151,9 @@ Props/C10.vos Props/C10.vok Props/C10.required_vos: Props/C10.v Model/Mon.vos Mo
 Props/C06.vo Props/C06.glob Props/C06.v.beautified Props/C06.required_vo: Props/C06.v Model/Mon.vo Model/MonC06.vo Model/MonC01.vo Model/MonC05.vo Model/MonC08.vo Proofs/SysInv.vo Proofs/PC06.vo Proofs/PC01.vo Proofs/PC05.vo Proofs/PC08.vo Gen/Sql.vo
 Props/C06.vio: Props/C06.v Model/Mon.vio Model/MonC06.vio Model/MonC01.vio Model/MonC05.vio Model/MonC08.vio Proofs/SysInv.vio Proofs/PC06.vio Proofs/PC01.vio Proofs/PC05.vio Proofs/PC08.vio Gen/Sql.vio
 Props/C06.vos Props/C06.vok Props/C06.required_vos: Props/C06.v Model/Mon.vos Model/MonC06.vos Model/MonC01.vos Model/MonC05.vos Model/MonC08.vos Proofs/SysInv.vos Proofs/PC06.vos Proofs/PC01.vos Proofs/PC05.vos Proofs/PC08.vos Gen/Sql.vos
+Props/C19.vo Props/C19.glob Props/C19.v.beautified Props/C19.required_vo: Props/C19.v Model/Route.vo Model/Coro.vo
+Props/C19.vio: Props/C19.v Model/Route.vio Model/Coro.vio
+Props/C19.vos Props/C19.vok Props/C19.required_vos: Props/C19.v Model/Route.vos Model/Coro.vos
 Props/C15.vo Props/C15.glob Props/C15.v.beautified Props/C15.required_vo: Props/C15.v Gen/Status.vo Spec/Front15.vo Model/Coro.vo
 Props/C15.vio: Props/C15.v Gen/Status.vio Spec/Front15.vio Model/Coro.vio
 Props/C15.vos Props/C15.vok Props/C15.required_vos: Props/C15.v Gen/Status.vos Spec/Front15.vos Model/Coro.vos
